@@ -51,9 +51,7 @@ let obs_fields show_ull str cnt al an no ull eq q =
 let m_step_s show_ull = function
   | None -> "contract"
   | Some (o, q) -> obs_fields show_ull o.o_string o.o_count o.o_all o.o_any o.o_none o.o_ullong o.o_eq q
-let s_step_s show_ull = function
-  | None -> "contract"
-  | Some (o, q) -> obs_fields show_ull o.so_string o.so_count o.so_all o.so_any o.so_none o.so_ullong o.so_eq q
+let s_step_s = m_step_s
 
 let words_s ws = String.concat "," (List.map (fun x -> Big.format "%x" (big_of_n x)) ws)
 
